@@ -68,6 +68,9 @@ impl Check for C08Check {
     }
 
     fn generate(&self, seed: u64, index: u64, tier: Tier) -> Case {
+        if let Some(c) = crate::surface::case_for("C08", seed, index) {
+            return c;
+        }
         let mut st = streams(seed, "C08", index);
         let mut o = Opts::finite_small();
         o.committed = true;
@@ -101,6 +104,9 @@ impl Check for C08Check {
     }
 
     fn valid(&self, case: &Case) -> bool {
+        if crate::surface::is_surface(case) {
+            return crate::surface::valid(case);
+        }
         valid::program_ok(&case.program)
             && !forbidden(&case.program)
             && infinite_only_in_cut_heads(&case.program)
@@ -108,7 +114,7 @@ impl Check for C08Check {
     }
 
     fn rule(&self) -> String {
-        "case = search program containing conda / condu / onceo whose head goals have 0, 1 or many answers delivered late, in \
+        "Every 64th case is one of the macro-written surface programs for this property (sim/src/surface.rs: matcha/matchu arms incl. bare wildcard arms, conda with three clauses, condu, onceo over a conjunction) compared with a hand-listed expectation, under the same schedules. case = search program containing conda / condu / onceo whose head goals have 0, 1 or many answers delivered late, in \
          bursts, through iterators, from dfs blocks or (condu/onceo only) from never-ending producers, with arbitrary rest \
          goals, nested under conjunction and disjunction, x (reorders, yields). Oracle: the reference interpreter evaluates \
          conda as soft-cut and condu/onceo under an explicit choice script (which head answer each evaluated condu/onceo \
@@ -120,6 +126,9 @@ impl Check for C08Check {
     }
 
     fn run(&self, case: &Case) -> CaseResult {
+        if crate::surface::is_surface(case) {
+            return crate::surface::run_case(case);
+        }
         let mut facts = Facts::default();
         fault_facts(&case.program, &mut facts);
         let p = &case.program;
